@@ -149,6 +149,46 @@ func sortInts(xs []int) {
 	}
 }
 
+// genBurst: one free-running run in which many updaters (32-64, batch size >=
+// their number, GOMAXPROCS > 1, no cancellation, no gates) are in flight at
+// once, start Fetch at the same instant and - most of them failing at fetch,
+// parse, store or GetUpdateOperations - hand their result back to Run at the
+// same instant. Whatever the workers share with Run (error collection,
+// semaphore, lock source, status records) is hit by all of them together.
+func genBurst(rnd *hx.Rand, r *hx.Run) *scenario {
+	sc := &scenario{procs: 4 + rnd.Intn(13), burst: true, regBind: map[int]int{}}
+	n := 32 + rnd.Intn(33)
+	f := facSpec{id: 0, ok: true, uset: -1}
+	for i := 0; i < n; i++ {
+		s := &script{inst: i, name: 2 + i, kind: "pppdddeeex"[rnd.Intn(10)], getOk: true, parseOk: true, storeOk: true, src: 1 + rnd.Intn(6), fmode: 3}
+		switch c := rnd.Intn(20); {
+		case c < 6:
+			s.fmode = 1
+		case c < 11:
+			s.parseOk = false
+		case c < 16:
+			s.storeOk = false
+		case c < 17:
+			s.getOk = false
+		case c < 18:
+			s.fmode = 2
+		}
+		s.cmode = []int{0, 0, 1, 2}[rnd.Intn(4)]
+		s.vulns = pickN(rnd, rnd.Intn(3), 1, 50)
+		if s.kind == 'd' {
+			s.deleted = pickN(rnd, rnd.Intn(2), 1, 50)
+		}
+		sc.scripts = append(sc.scripts, s)
+		f.members = append(f.members, i)
+	}
+	sc.facs = []facSpec{f}
+	sc.mgrs = []mgrSpec{{opts: []optSpec{fsOpt(0), {kind: "b", n: n + rnd.Intn(8)}}}}
+	// twice: the failures repeat in the second run, the stored ones turn into unchanged sources
+	sc.runs = []runSpec{{mgr: 0, phase: 0}, {mgr: 0, phase: 1}}
+	r.Count("mode:burst")
+	return sc
+}
+
 func genScenario(rnd *hx.Rand, r *hx.Run) *scenario {
 	sc := &scenario{procs: 1 + rnd.Intn(16), yieldAll: rnd.Chance(1, 3), regBind: map[int]int{}}
 	var n int
@@ -775,7 +815,12 @@ func Run(cfg hx.Config) error {
 	}
 	n := cfg.N(800, 40000)
 	for i := 0; i < n && !r.Stop(); i++ {
-		sc := genScenario(rnd, r)
+		var sc *scenario
+		if i%4 == 1 {
+			sc = genBurst(rnd, r)
+		} else {
+			sc = genScenario(rnd, r)
+		}
 		sc.bindRegistry(registeredNames())
 		if !runScenario(r, cfg.Seed, idx, sc) {
 			break
